@@ -6,6 +6,7 @@
 package main
 
 import (
+	"bufio"
 	"bytes"
 	"crypto/sha256"
 	"database/sql"
@@ -16,7 +17,6 @@ import (
 	"io"
 	"net"
 	"net/http"
-	"net/http/httptest"
 	"os"
 	"path/filepath"
 	"sort"
@@ -33,6 +33,8 @@ import (
 	"github.com/gofiber/fiber/v2"
 	_ "github.com/mattn/go-sqlite3"
 	"github.com/rs/zerolog"
+	"github.com/valyala/fasthttp"
+	"github.com/valyala/fasthttp/fasthttputil"
 )
 
 // ---- result types: shared.go ---------------------------------------------------------------------
@@ -55,14 +57,26 @@ func fail(format string, a ...any) { panic(harnessErr(fmt.Sprintf(format, a...))
 type instance interface {
 	ttl() time.Duration
 	// deliver sends one signed message through the real handler; accepted = passed validate-then-Track.
-	deliver(sender, nonce string, ts int64) (accepted bool, why string)
+	// fresh=false: over the instance's one long-lived connection (opened by the first such delivery and
+	// kept alive); fresh=true: over a connection opened for this delivery (kept open until close()).
+	// Sites whose protocol carries one message per connection (replicate-sync) ignore it.
+	deliver(sender, nonce string, ts int64, fresh bool) (accepted bool, why string)
+	// close tears the instance's connections down and waits for the server side to return.
+	close()
 }
 
 type site struct {
 	name string
 	tol  time.Duration
 	mk   func() instance
+	// conn: the site is served over a long-lived connection in production (HTTP keep-alive, the
+	// persistent forward-apply peer connection), so the connection dimension applies to its histories
+	conn bool
+	st   *connStats
 }
+
+// connStats: per site, measured (evidence: the keep-alive connection really was reused).
+type connStats struct{ reused, fresh, reconnects int }
 
 func ttlOf(g any) time.Duration {
 	t, ok := g.(interface{ VerifTTL() time.Duration })
@@ -77,9 +91,84 @@ func ttlOf(g any) time.Duration {
 type coordInst struct {
 	c    *cluster.Coordinator
 	kind string
+	// forward-apply: the peer keeps ONE persistent connection to the leader and sends every forwarded
+	// command over it (handleForwardApplyLoop); keep is that connection, all lists every open one
+	keep *peerConn
+	all  []*peerConn
+	st   *connStats
+}
+
+type peerConn struct {
+	raw    net.Conn
+	cli    noDeadlineConn
+	done   chan struct{}
+	served int
 }
 
 func (i *coordInst) ttl() time.Duration { return ttlOf(i.c.VerifC26NonceCache()) }
+
+func (i *coordInst) dial() *peerConn {
+	rawCli, rawSrv := net.Pipe()
+	pc := &peerConn{raw: rawCli, cli: noDeadlineConn{rawCli}, done: make(chan struct{})}
+	go func() { i.c.VerifC26HandlePeer(noDeadlineConn{rawSrv}); rawSrv.Close(); close(pc.done) }()
+	i.all = append(i.all, pc)
+	return pc
+}
+
+func (i *coordInst) close() {
+	for _, pc := range i.all {
+		pc.raw.Close()
+	}
+	for _, pc := range i.all {
+		select {
+		case <-pc.done:
+		case <-time.After(handlerWatchdog):
+			fail("%s: peer-connection handler did not return after its connection was closed", i.kind)
+		}
+	}
+	i.all, i.keep = nil, nil
+}
+
+// deliverForward: one forwarded command over the persistent connection (or a fresh one).
+func (i *coordInst) deliverForward(msg *protocol.Message, fresh bool) *protocol.Message {
+	for attempt := 0; ; attempt++ {
+		var pc *peerConn
+		if fresh {
+			pc = i.dial()
+			i.st.fresh++
+		} else {
+			if i.keep == nil {
+				i.keep = i.dial()
+			}
+			pc = i.keep
+		}
+		wd := time.AfterFunc(handlerWatchdog, func() { pc.raw.Close() })
+		err := protocol.SendMessage(pc.cli, msg, 0)
+		if err != nil && !fresh && pc.served > 0 && attempt == 0 {
+			// the handler ended the persistent connection after an earlier reply: a production peer
+			// re-dials on the next command, so does the harness (counted)
+			wd.Stop()
+			pc.raw.Close()
+			i.keep = nil
+			i.st.reconnects++
+			continue
+		}
+		if err != nil {
+			wd.Stop()
+			fail("%s: send: %v", i.kind, err)
+		}
+		resp, err := protocol.ReceiveMessage(pc.cli, 0)
+		wd.Stop()
+		if err != nil {
+			fail("%s: no reply from handler: %v", i.kind, err)
+		}
+		if pc.served > 0 {
+			i.st.reused++
+		}
+		pc.served++
+		return resp
+	}
+}
 
 // noDeadlineConn: the handler (and the protocol codec) arm WALL-CLOCK read/write deadlines of 5-30 s on
 // the connection; on an in-memory pipe they are not part of the property, and on a heavily loaded box
@@ -94,13 +183,7 @@ func (noDeadlineConn) SetWriteDeadline(time.Time) error { return nil }
 // retried once on a fresh handler). Only a hung handler can reach it.
 const handlerWatchdog = 5 * time.Minute
 
-func (i *coordInst) deliver(sender, nonce string, ts int64) (bool, string) {
-	rawCli, rawSrv := net.Pipe()
-	cli, srv := noDeadlineConn{rawCli}, noDeadlineConn{rawSrv}
-	done := make(chan struct{})
-	go func() { i.c.VerifC26HandlePeer(srv); close(done) }()
-	wd := time.AfterFunc(handlerWatchdog, func() { rawCli.Close(); rawSrv.Close() })
-	defer wd.Stop()
+func (i *coordInst) deliver(sender, nonce string, ts int64, fresh bool) (bool, string) {
 	var msg *protocol.Message
 	if i.kind == "forward-apply" {
 		payload := []byte(`{"type":1,"payload":{}}`)
@@ -114,16 +197,30 @@ func (i *coordInst) deliver(sender, nonce string, ts int64) (bool, string) {
 			HMAC: security.ComputeReplicateSyncHMAC(secret, nonce, sender, clusterName, 7, ts),
 		}}
 	}
-	if err := protocol.SendMessage(cli, msg, 0); err != nil {
-		fail("%s: send: %v", i.kind, err)
+	var resp *protocol.Message
+	if i.kind == "forward-apply" {
+		resp = i.deliverForward(msg, fresh)
+	} else {
+		// replicate-sync: one handshake per connection (the handler hands the connection to the
+		// replication sender, or closes it on rejection)
+		rawCli, rawSrv := net.Pipe()
+		cli, srv := noDeadlineConn{rawCli}, noDeadlineConn{rawSrv}
+		done := make(chan struct{})
+		go func() { i.c.VerifC26HandlePeer(srv); close(done) }()
+		wd := time.AfterFunc(handlerWatchdog, func() { rawCli.Close(); rawSrv.Close() })
+		defer wd.Stop()
+		if err := protocol.SendMessage(cli, msg, 0); err != nil {
+			fail("%s: send: %v", i.kind, err)
+		}
+		var err error
+		resp, err = protocol.ReceiveMessage(cli, 0)
+		if err != nil {
+			fail("%s: no reply from handler: %v", i.kind, err)
+		}
+		cli.Close()
+		<-done
+		srv.Close()
 	}
-	resp, err := protocol.ReceiveMessage(cli, 0)
-	if err != nil {
-		fail("%s: no reply from handler: %v", i.kind, err)
-	}
-	cli.Close()
-	<-done
-	srv.Close()
 	switch a := resp.Payload.(type) {
 	case *protocol.ForwardApplyAck:
 		switch {
@@ -154,54 +251,161 @@ func coordSite(kind string) site {
 	if kind == "replicate-sync" {
 		tol = probe.VerifC26ReplicateSyncTolerance()
 	}
-	return site{name: kind, tol: tol, mk: func() instance {
-		return &coordInst{c: cluster.VerifC26Coordinator(secret, clusterName), kind: kind}
+	st := &connStats{}
+	return site{name: kind, tol: tol, conn: kind == "forward-apply", st: st, mk: func() instance {
+		return &coordInst{c: cluster.VerifC26Coordinator(secret, clusterName), kind: kind, st: st}
 	}}
+}
+
+// -- HTTP sites: ONE long-lived fasthttp server per handler instance, requests written back to back on
+// in-memory keep-alive connections ------------------------------------------------------------------
+//
+// The fiber app is built with the buffer-relevant options of the production api server (Immutable,
+// StreamRequestBody, DisableKeepalive, ReduceMemoryUsage as written in internal/api/server.go; the
+// driver reads them from the source) and its fasthttp server serves every connection through
+// Server.ServeConn - the same serveConn loop the production listener's worker pool runs: one RequestCtx
+// per connection, request header/body buffers reused from request to request on that connection.
+// No connection is closed before the case ends, so a fresh connection always gets a RequestCtx of its
+// own (fasthttp passes a closed connection's RequestCtx on through a sync.Pool whose hit or miss depends
+// on scheduling; the harness keeps that out of the case).
+
+type httpConn struct {
+	c      net.Conn
+	br     *bufio.Reader
+	done   chan struct{}
+	served int
+}
+
+type httpRig struct {
+	what string
+	srv  *fasthttp.Server
+	keep *httpConn
+	all  []*httpConn
+	st   *connStats
+}
+
+func newFiberApp() *fiber.App {
+	return fiber.New(fiber.Config{DisableStartupMessage: true, Immutable: siteFiberImmutable,
+		StreamRequestBody: siteFiberStreamRequestBody, DisableKeepalive: siteFiberDisableKeepalive,
+		ReduceMemoryUsage: siteFiberReduceMemoryUsage})
+}
+
+func newHTTPRig(what string, app *fiber.App, st *connStats) *httpRig {
+	app.Handler() // fiber's startup step (route tree), what Listen/Listener/Test run before serving
+	return &httpRig{what: what, srv: app.Server(), st: st}
+}
+
+func (h *httpRig) dial() *httpConn {
+	pc := fasthttputil.NewPipeConns()
+	hc := &httpConn{c: pc.Conn1(), br: bufio.NewReader(pc.Conn1()), done: make(chan struct{})}
+	srvConn := pc.Conn2()
+	go func() { h.srv.ServeConn(srvConn); close(hc.done) }()
+	h.all = append(h.all, hc)
+	return hc
+}
+
+func (h *httpRig) close() {
+	for _, hc := range h.all {
+		hc.c.Close()
+	}
+	for _, hc := range h.all {
+		select {
+		case <-hc.done:
+		case <-time.After(handlerWatchdog):
+			fail("%s: server did not return after its connection was closed", h.what)
+		}
+	}
+	h.all, h.keep = nil, nil
+}
+
+// do writes one HTTP/1.1 request on the keep-alive connection (or a fresh one) and reads the reply.
+func (h *httpRig) do(method, path string, hdr [][2]string, body []byte, fresh bool) (int, []byte) {
+	var rd io.Reader
+	if body != nil {
+		rd = bytes.NewReader(body)
+	}
+	req, err := http.NewRequest(method, "http://c26.hub"+path, rd)
+	if err != nil {
+		fail("%s: request: %v", h.what, err)
+	}
+	for _, kv := range hdr {
+		req.Header.Set(kv[0], kv[1])
+	}
+	var hc *httpConn
+	if fresh {
+		hc = h.dial()
+		h.st.fresh++
+	} else {
+		if h.keep == nil {
+			h.keep = h.dial()
+		}
+		hc = h.keep
+	}
+	wd := time.AfterFunc(handlerWatchdog, func() { hc.c.Close() })
+	defer wd.Stop()
+	if err := req.Write(hc.c); err != nil {
+		fail("%s: write request: %v", h.what, err)
+	}
+	resp, err := http.ReadResponse(hc.br, req)
+	if err != nil {
+		fail("%s: read response: %v", h.what, err)
+	}
+	raw, err := io.ReadAll(resp.Body)
+	resp.Body.Close()
+	if err != nil {
+		fail("%s: read response body: %v", h.what, err)
+	}
+	if hc.served > 0 {
+		h.st.reused++
+	}
+	hc.served++
+	if resp.Close && hc == h.keep {
+		// the server announced it closes this connection: a production client dials again (counted)
+		h.keep = nil
+		h.st.reconnects++
+	}
+	return resp.StatusCode, raw
 }
 
 // -- internal/api: cache invalidate ---------------------------------------------------------------
 
 type cacheInvInst struct {
-	app   *fiber.App
+	*httpRig
 	cache *security.NonceCache
 	calls *int
 }
 
 func (i *cacheInvInst) ttl() time.Duration { return ttlOf(i.cache) }
 
-func (i *cacheInvInst) deliver(sender, nonce string, ts int64) (bool, string) {
-	req := httptest.NewRequest(http.MethodPost, api.CacheInvalidatePath, nil)
-	req.Header.Set("X-Arc-Node-ID", sender)
-	req.Header.Set("X-Arc-Cluster", clusterName)
-	req.Header.Set("X-Arc-Nonce", nonce)
-	req.Header.Set("X-Arc-Timestamp", strconv.FormatInt(ts, 10))
-	req.Header.Set("X-Arc-HMAC", security.ComputeCacheInvalidateHMAC(secret, nonce, sender, clusterName, ts))
+func (i *cacheInvInst) deliver(sender, nonce string, ts int64, fresh bool) (bool, string) {
 	before := *i.calls
-	resp, err := i.app.Test(req, int(handlerWatchdog/time.Millisecond))
-	if err != nil {
-		fail("cache-invalidate: request: %v", err)
-	}
-	io.Copy(io.Discard, resp.Body)
-	resp.Body.Close()
+	status, _ := i.do(http.MethodPost, api.CacheInvalidatePath, [][2]string{
+		{"X-Arc-Node-ID", sender},
+		{"X-Arc-Cluster", clusterName},
+		{"X-Arc-Nonce", nonce},
+		{"X-Arc-Timestamp", strconv.FormatInt(ts, 10)},
+		{"X-Arc-HMAC", security.ComputeCacheInvalidateHMAC(secret, nonce, sender, clusterName, ts)},
+	}, nil, fresh)
 	switch {
-	case resp.StatusCode == fiber.StatusNoContent && *i.calls == before+1:
+	case status == fiber.StatusNoContent && *i.calls == before+1:
 		return true, ""
-	case resp.StatusCode == fiber.StatusForbidden && *i.calls == before:
+	case status == fiber.StatusForbidden && *i.calls == before:
 		return false, "forbidden"
 	}
-	fail("cache-invalidate: status %d, onInvalidate calls %d->%d", resp.StatusCode, before, *i.calls)
+	fail("cache-invalidate: status %d, onInvalidate calls %d->%d", status, before, *i.calls)
 	return false, ""
 }
 
 func cacheInvSite() site {
-	return site{name: "cache-invalidate", tol: siteCacheInvalidateTolerance(), mk: func() instance {
+	st := &connStats{}
+	return site{name: "cache-invalidate", tol: siteCacheInvalidateTolerance(), conn: true, st: st, mk: func() instance {
 		calls := new(int)
 		cache := siteCacheInvalidateNonceCache()
 		h := api.NewCacheInvalidateHandler(secret, clusterName, localNodeID, cache, siteCacheInvalidateTolerance(),
 			func() { *calls++ }, zerolog.Nop())
-		app := fiber.New(fiber.Config{DisableStartupMessage: true})
+		app := newFiberApp()
 		h.Register(app)
-		return &cacheInvInst{app: app, cache: cache, calls: calls}
+		return &cacheInvInst{httpRig: newHTTPRig("cache-invalidate", app, st), cache: cache, calls: calls}
 	}}
 }
 
@@ -242,8 +446,8 @@ func newEdgeRig(scratch string) *edgeRig {
 }
 
 type edgeInst struct {
+	*httpRig
 	rig   *edgeRig
-	app   *fiber.App
 	guard security.ReplayGuard
 	kind  string
 }
@@ -254,9 +458,11 @@ var edgeBody = []byte("c26 parquet payload")
 
 const edgePath = "metrics/cpu/2026/08/07/14/cpu_c26.parquet"
 
-func (i *edgeInst) deliver(sender, nonce string, ts int64) (bool, string) {
+func (i *edgeInst) deliver(sender, nonce string, ts int64, fresh bool) (bool, string) {
 	h := i.rig.hdr
-	var req *http.Request
+	var hdr [][2]string
+	var path string
+	var body []byte
 	if i.kind == "edge-sync-file" {
 		sum := sha256.Sum256(edgeBody)
 		sha := hex.EncodeToString(sum[:])
@@ -264,32 +470,22 @@ func (i *edgeInst) deliver(sender, nonce string, ts int64) (bool, string) {
 		if err != nil {
 			fail("edge-sync-file: sign: %v", err)
 		}
-		req = httptest.NewRequest(http.MethodPost, "/api/v1/sync/file", bytes.NewReader(edgeBody))
-		req.Header.Set(h["path"], edgePath)
-		req.Header.Set(h["sha256"], sha)
-		req.Header.Set(h["size"], strconv.Itoa(len(edgeBody)))
-		req.Header.Set(h["mac"], mac)
+		path, body = "/api/v1/sync/file", edgeBody
+		hdr = append(hdr, [2]string{h["path"], edgePath}, [2]string{h["sha256"], sha},
+			[2]string{h["size"], strconv.Itoa(len(edgeBody))}, [2]string{h["mac"], mac})
 	} else {
-		body := []byte(`{"entries":[]}`)
+		body = []byte(`{"entries":[]}`)
 		mac, err := security.ComputeSyncReconcileHMAC(secret, nonce, sender, hubID, body, ts)
 		if err != nil {
 			fail("edge-sync-reconcile: sign: %v", err)
 		}
-		req = httptest.NewRequest(http.MethodPost, "/api/v1/sync/reconcile", bytes.NewReader(body))
-		req.Header.Set("Content-Type", "application/json")
-		req.Header.Set(h["mac"], mac)
+		path = "/api/v1/sync/reconcile"
+		hdr = append(hdr, [2]string{"Content-Type", "application/json"}, [2]string{h["mac"], mac})
 	}
-	req.Header.Set(h["spoke"], sender)
-	req.Header.Set(h["hub"], hubID)
-	req.Header.Set(h["nonce"], nonce)
-	req.Header.Set(h["ts"], strconv.FormatInt(ts, 10))
-	resp, err := i.app.Test(req, int(handlerWatchdog/time.Millisecond))
-	if err != nil {
-		fail("%s: request: %v", i.kind, err)
-	}
-	raw, _ := io.ReadAll(resp.Body)
-	resp.Body.Close()
-	switch resp.StatusCode {
+	hdr = append(hdr, [2]string{h["spoke"], sender}, [2]string{h["hub"], hubID}, [2]string{h["nonce"], nonce},
+		[2]string{h["ts"], strconv.FormatInt(ts, 10)})
+	status, raw := i.do(http.MethodPost, path, hdr, body, fresh)
+	switch status {
 	case fiber.StatusOK:
 		return true, ""
 	case fiber.StatusUnauthorized:
@@ -301,24 +497,25 @@ func (i *edgeInst) deliver(sender, nonce string, ts int64) (bool, string) {
 		}
 		return false, why
 	}
-	fail("%s: unexpected status %d body %.200s", i.kind, resp.StatusCode, raw)
+	fail("%s: unexpected status %d body %.200s", i.kind, status, raw)
 	return false, ""
 }
 
 func edgeSite(rig *edgeRig, kind string) site {
+	st := &connStats{}
 	mk := func() *edgeInst {
 		guard := siteEdgeSyncReplay()
 		h, err := api.NewEdgeSyncHandler(api.EdgeSyncHandlerConfig{
 			Receiver: rig.recv, Reconciler: rig.rec,
-			SpokeSecrets: api.StaticSpokeSecrets(map[string]string{"spoke-a": secret, "spoke-ticker": secret, "spoke-ticker2": secret}),
+			SpokeSecrets: api.StaticSpokeSecrets(map[string]string{"spoke-a": secret, "spoke-t": secret, "spoke-u": secret}),
 			Replay:       guard, HubID: hubID, MaxFileBytes: 1 << 20, Logger: zerolog.Nop(),
 		})
 		if err != nil {
 			fail("edge-sync handler: %v", err)
 		}
-		app := fiber.New(fiber.Config{DisableStartupMessage: true})
+		app := newFiberApp()
 		h.RegisterRoutes(app)
-		return &edgeInst{rig: rig, app: app, guard: guard, kind: kind}
+		return &edgeInst{httpRig: newHTTPRig(kind, app, st), rig: rig, guard: guard, kind: kind}
 	}
 	// tolerance: the handler method's own argument expression
 	hh, err := api.NewEdgeSyncHandler(api.EdgeSyncHandlerConfig{Receiver: rig.recv, Reconciler: rig.rec,
@@ -331,17 +528,24 @@ func edgeSite(rig *edgeRig, kind string) site {
 	if kind == "edge-sync-reconcile" {
 		tol = hh.VerifC26SyncReconcileTolerance()
 	}
-	return site{name: kind, tol: tol, mk: func() instance { return mk() }}
+	return site{name: kind, tol: tol, conn: true, st: st, mk: func() instance { return mk() }}
 }
 
 // ---- one case -------------------------------------------------------------------------------------
 
-func senders(siteName string) (string, string) {
+// senders: the sender under test and the ids of the unrelated senders (tickers, V deliveries). All ids of
+// a site have the SAME length, and so have all nonces of a history (unrelatedNonce): a delivery that
+// follows M on M's connection then occupies exactly the bytes M's id and nonce occupied in the server's
+// request buffers, which is what production traffic from one peer looks like (fixed-width node ids,
+// fixed-width random nonces).
+func senders(siteName string) (string, []string) {
 	if strings.HasPrefix(siteName, "edge-sync") {
-		return "spoke-a", "spoke-ticker"
+		return "spoke-a", []string{"spoke-t", "spoke-u"}
 	}
-	return "node-a", "node-ticker"
+	return "node-a", []string{"node-t", "node-u"}
 }
+
+func unrelatedNonce(k int) string { return fmt.Sprintf("nonce-unrelat-%02d", k) }
 
 func abs(x int64) int64 {
 	if x < 0 {
@@ -359,14 +563,21 @@ type result struct {
 
 const nonceUnderTest = "nonce-under-test"
 
+func init() {
+	if len(unrelatedNonce(1)) != len(nonceUnderTest) {
+		panic("c26: unrelated nonces must have the length of the nonce under test")
+	}
+}
+
 // runHistory executes a history case (see Case in shared.go) on one fresh handler + nonce cache.
 func runHistory(s site, c Case) result {
 	t0 := epochS * 1e9
 	security.VerifSetClock(t0)
 	in := s.mk()
+	defer in.close()
 	tolS := int64(s.tol.Seconds())
 	ttl := in.ttl()
-	sender, ticker := senders(s.name)
+	sender, tickers := senders(s.name)
 	r := result{obs: Obs{Case: c, TolS: tolS, TTLNs: int64(ttl)}, unrelated: map[string]int{}}
 	fmtRes := func(acc bool, why string) string {
 		if acc {
@@ -389,33 +600,40 @@ func runHistory(s site, c Case) result {
 		}
 		security.VerifSetClock(now)
 		var res string
+		fresh := false
+		full := tok
+		if len(tok) == 2 && tok[1] == 'f' {
+			if !s.conn {
+				fail("history %q: site %s has no long-lived connection, token %q does not apply", c.Hist, s.name, tok)
+			}
+			fresh, tok = true, tok[:1]
+		}
 		switch tok {
 		case "M":
 			if r.obs.Orig != "" {
 				fail("history %q delivers M twice", c.Hist)
 			}
 			tM, ts = now, now/1e9+c.OffS
-			res = fmtRes(in.deliver(sender, nonceUnderTest, ts))
+			res = fmtRes(in.deliver(sender, nonceUnderTest, ts, fresh))
 			r.obs.Orig, r.obs.OrigDrift = res, now/1e9-ts
 		case "R":
 			if r.obs.Orig == "" || r.obs.Replay != "" {
 				fail("history %q: R must come once, after M", c.Hist)
 			}
-			res = fmtRes(in.deliver(sender, nonceUnderTest, ts))
+			res = fmtRes(in.deliver(sender, nonceUnderTest, ts, fresh))
 			r.obs.Replay, r.obs.ReplDrift, r.obs.ElapsedNs = res, now/1e9-ts, now-tM
 		case "U", "V":
 			var acc bool
 			var why string
 			if tok == "U" { // same sender, a nonce of its own
 				nU++
-				acc, why = in.deliver(sender, "unrelated-"+strconv.Itoa(nU), now/1e9)
+				acc, why = in.deliver(sender, unrelatedNonce(nU), now/1e9, fresh)
 			} else { // another node id, the nonce under test
 				nV++
-				id := ticker
-				if nV > 1 {
-					id += strconv.Itoa(nV)
+				if nV > len(tickers) {
+					fail("history %q: more than %d V deliveries", c.Hist, len(tickers))
 				}
-				acc, why = in.deliver(id, nonceUnderTest, now/1e9)
+				acc, why = in.deliver(tickers[nV-1], nonceUnderTest, now/1e9, fresh)
 			}
 			res = fmtRes(acc, why)
 			r.obs.TicksSent++
@@ -429,7 +647,7 @@ func runHistory(s site, c Case) result {
 			fail("bad history token %q in %q", tok, c.Hist)
 		}
 		r.deliveries++
-		evs = append(evs, fmt.Sprintf("%s@+%ds=%s", tok, (now-t0)/1e9, res))
+		evs = append(evs, fmt.Sprintf("%s@+%ds=%s", full, (now-t0)/1e9, res))
 	}
 	if r.obs.Orig == "" || r.obs.Replay == "" {
 		fail("history %q lacks M or R", c.Hist)
@@ -468,9 +686,11 @@ func runCase(s site, c Case) result {
 	t0 := epochS * 1e9
 	security.VerifSetClock(t0)
 	in := s.mk()
+	defer in.close()
 	tolS := int64(s.tol.Seconds())
 	ttl := in.ttl()
-	sender, ticker := senders(s.name)
+	sender, tickers := senders(s.name)
+	ticker := tickers[0]
 	t1 := t0 + c.FirstS*1e9 + c.Phi1Ns
 	s1 := t1 / 1e9
 	ts := s1 + c.OffS
@@ -484,14 +704,14 @@ func runCase(s site, c Case) result {
 		return "rejected:" + why
 	}
 	security.VerifSetClock(t1)
-	acc, why := in.deliver(sender, nonceUnderTest, ts)
+	acc, why := in.deliver(sender, nonceUnderTest, ts, false)
 	r.deliveries++
 	r.obs.Orig = fmtRes(acc, why)
 	if c.Ticks {
 		for k := int64(1); t1+k*61e9 < t2; k++ {
 			tk := t1 + k*61e9
 			security.VerifSetClock(tk)
-			a, _ := in.deliver(ticker, "tick-"+strconv.FormatInt(k, 10), tk/1e9)
+			a, _ := in.deliver(ticker, "tick-"+strconv.FormatInt(k, 10), tk/1e9, false)
 			r.deliveries++
 			r.obs.TicksSent++
 			if a {
@@ -502,7 +722,7 @@ func runCase(s site, c Case) result {
 		}
 	}
 	security.VerifSetClock(t2)
-	acc, why = in.deliver(sender, nonceUnderTest, ts)
+	acc, why = in.deliver(sender, nonceUnderTest, ts, false)
 	r.deliveries++
 	r.obs.Replay = fmtRes(acc, why)
 	return r
@@ -632,18 +852,34 @@ var (
 )
 
 // enumerateHist calls f for every history case of the site, in a fixed order. Distinct by construction.
-// extra=false: the quick set (both tiers run it first). extra=true: what thorough adds to it (for the
-// quick shapes the construction gaps the quick set leaves out; the X-first 4-delivery shapes, starting
-// at construction time).
-func enumerateHist(siteName string, tolNs, ttlNs int64, ivs []int64, extra bool, f func(Case)) (gaps []int64) {
+// extra=false: the quick set (both tiers run it first). extra=true: what thorough adds to it.
+//
+// The space (thorough = all of it): shapes histShapesQuick + histShapesExtra x replay connection
+// {R on the keep-alive connection, Rf on a fresh connection (conn sites only)} x one clock advance per
+// delivery: the advance before the first delivery (time since construction) from {0, I, I+1s} (0 only for
+// the X-first 4-delivery shapes: their first X sets the sweep phase), every later advance from the gap grid
+// (for the Rf variants of the histShapesExtra shapes: from the reduced grid {0, 1s, I+1s}),
+// the advances between M and R summing to at most 2*tol+2s, x the 9 edge offsets.
+// The quick set: shapes histShapesQuick; first advance {0, I+1s} for 2-3 deliveries and 0 for 4; for the
+// Rf variants every later advance from the reduced grid {0, 1s, I+1s} (returned as freshQuick).
+func enumerateHist(siteName string, tolNs, ttlNs int64, ivs []int64, conn, extra bool, f func(Case)) (gaps, freshQuick []int64) {
 	tolS := tolNs / 1e9
 	gaps = gapGrid(ttlNs/1e9, ivs)
-	firstQ, firstAll := []int64{0}, []int64{0}
+	firstQ, firstAll, freshQuick := []int64{0}, []int64{0}, []int64{0, 1}
 	for _, i := range ivs {
 		firstQ = append(firstQ, i+1)
 		firstAll = append(firstAll, i, i+1)
+		freshQuick = append(freshQuick, i+1)
 	}
-	firstQ, firstAll = uniq(firstQ), uniq(firstAll)
+	firstQ, firstAll, freshQuick = uniq(firstQ), uniq(firstAll), uniq(freshQuick)
+	in := func(set []int64, x int64) bool {
+		for _, y := range set {
+			if x == y {
+				return true
+			}
+		}
+		return false
+	}
 	isQuickShape := func(shape string) bool {
 		for _, x := range histShapesQuick {
 			if x == shape {
@@ -652,67 +888,87 @@ func enumerateHist(siteName string, tolNs, ttlNs int64, ivs []int64, extra bool,
 		}
 		return false
 	}
-	inQuick := func(shape string, a0 int64) bool { // is (shape, construction gap) part of the quick set?
+	inQuick := func(shape string, fresh bool, adv []int64) bool { // is the case part of the quick set?
 		if !isQuickShape(shape) {
 			return false
 		}
 		if len(shape) >= 4 {
-			return a0 == 0 // quick: 4-delivery histories start at construction time
+			if adv[0] != 0 { // quick: 4-delivery histories start at construction time
+				return false
+			}
+		} else if !in(firstQ, adv[0]) {
+			return false
 		}
-		for _, x := range firstQ {
-			if x == a0 {
-				return true
+		if fresh {
+			for _, a := range adv[1:] {
+				if !in(freshQuick, a) {
+					return false
+				}
 			}
 		}
-		return false
+		return true
 	}
 	bound := 2*tolS + 2 // M..R longer than this: R is outside the window whatever the offset
 	offs := edgeOffsets(tolS)
-	shapes := histShapesQuick
-	if extra {
-		shapes = append(append([]string{}, histShapesQuick...), histShapesExtra...)
-	}
+	shapes := append(append([]string{}, histShapesQuick...), histShapesExtra...)
 	for _, shape := range shapes {
-		mIdx := strings.IndexByte(shape, 'M')
-		adv := make([]int64, len(shape))
-		var rec func(i int, mToR int64)
-		rec = func(i int, mToR int64) {
-			if i == len(shape) {
-				var b strings.Builder
-				for k := range shape {
-					if k > 0 {
-						b.WriteByte(' ')
-					}
-					b.WriteString("+" + strconv.FormatInt(adv[k], 10) + " " + shape[k:k+1])
-				}
-				h := b.String()
-				for _, off := range offs {
-					f(Case{Site: siteName, OffS: off, Hist: h})
-				}
-				return
-			}
-			g := gaps
-			if i == 0 {
-				g = firstAll
-			}
-			for _, a := range g {
-				if i == 0 && (inQuick(shape, a) == extra || (a != 0 && !isQuickShape(shape))) {
-					continue // X-first 4-delivery shapes start at construction time: their first X sets the sweep phase
-				}
-				m := mToR
-				if i > mIdx {
-					m += a
-					if m > bound {
-						continue
-					}
-				}
-				adv[i] = a
-				rec(i+1, m)
-			}
+		if !extra && !isQuickShape(shape) {
+			continue
 		}
-		rec(0, 0)
+		mIdx := strings.IndexByte(shape, 'M')
+		for _, fresh := range []bool{false, true} {
+			if fresh && !conn {
+				continue
+			}
+			adv := make([]int64, len(shape))
+			var rec func(i int, mToR int64)
+			rec = func(i int, mToR int64) {
+				if i == len(shape) {
+					if inQuick(shape, fresh, adv) == extra {
+						return
+					}
+					var b strings.Builder
+					for k := range shape {
+						if k > 0 {
+							b.WriteByte(' ')
+						}
+						b.WriteString("+" + strconv.FormatInt(adv[k], 10) + " " + shape[k:k+1])
+					}
+					if fresh {
+						b.WriteByte('f') // the last delivery is R
+					}
+					h := b.String()
+					for _, off := range offs {
+						f(Case{Site: siteName, OffS: off, Hist: h})
+					}
+					return
+				}
+				g := gaps
+				if fresh && !isQuickShape(shape) {
+					g = freshQuick // thorough-only shapes: the Rf variant over the reduced grid
+				}
+				if i == 0 {
+					g = firstAll
+				}
+				for _, a := range g {
+					if i == 0 && a != 0 && !isQuickShape(shape) {
+						continue // X-first 4-delivery shapes start at construction time: their first X sets the sweep phase
+					}
+					m := mToR
+					if i > mIdx {
+						m += a
+						if m > bound {
+							continue
+						}
+					}
+					adv[i] = a
+					rec(i+1, m)
+				}
+			}
+			rec(0, 0)
+		}
 	}
-	return gaps
+	return gaps, freshQuick
 }
 
 // ---- main -----------------------------------------------------------------------------------------
@@ -726,10 +982,14 @@ func main() {
 	one := flag.String("case", "", "")
 	_ = flag.Int("seed", 0, "")
 	repeat := flag.Int("repeat", 1, "")
+	// -upto N: sequence re-run. Run this shard's cases in enumeration order up to and including the case
+	// with enumeration index N, no deadline, and report that case's observation as Target.
+	upto := flag.Int("upto", 0, "")
 	flag.Parse()
 	out := &WorkerOut{Sites: map[string]SiteInfo{}, Outcomes: map[string]int{}, Exhaustive: true,
 		GridOffsets: map[string]int{}, GridDelays: map[string]int{}, AcceptedOrigin: map[string]int{},
-		HistByLen: map[string]int{}, HistGaps: map[string][]int64{}, UnrelatedSeen: map[string]int{}}
+		HistByLen: map[string]int{}, HistGaps: map[string][]int64{}, UnrelatedSeen: map[string]int{},
+		HistFreshGaps: map[string][]int64{}, ConnReused: map[string]int{}, ConnFresh: map[string]int{}, ConnReconnects: map[string]int{}}
 	emit := func() {
 		b, _ := json.Marshal(out)
 		os.Stdout.Write(b)
@@ -766,6 +1026,7 @@ func main() {
 	nPlain, nHist := 0, 0
 	ivNamed, ivSecs, ivAssumed := cacheIntervals()
 	out.Intervals, out.IntervalsAssumed = ivNamed, ivAssumed
+	curIdx := 0 // enumeration index of the case being recorded (0 in -case mode)
 	record := func(s site, r result) {
 		o := r.obs
 		out.Cases++
@@ -777,7 +1038,11 @@ func main() {
 		if isHist {
 			out.HistCases++
 			shape, _, _ := histShape(o.Case.Hist)
-			out.HistByLen[strings.NewReplacer("U", "X", "V", "X").Replace(shape)]++
+			shape = strings.NewReplacer("U", "X", "V", "X").Replace(shape)
+			if histFresh(o.Case.Hist) {
+				shape += "f" // the replay came over a fresh connection
+			}
+			out.HistByLen[shape]++
 			if origAcc && replIn {
 				out.HistNonTrivial++
 			}
@@ -808,9 +1073,13 @@ func main() {
 				c = &Class{Kind: kind, Site: s.name, Region: region, Min: o, MinOff: o.Case.OffS, MaxOff: o.Case.OffS}
 				classes[key] = c
 			}
+			if !ok {
+				c.MinIdx, c.MinShard = curIdx, *shard
+			}
 			c.Count++
 			if caseLess(o.Case, c.Min.Case) {
 				c.Min = o
+				c.MinIdx, c.MinShard = curIdx, *shard
 			}
 			if o.ElapsedNs > c.MaxDelay {
 				c.MaxDelay = o.ElapsedNs
@@ -902,9 +1171,18 @@ func main() {
 		idx, mine := 0, 0
 		capped := false
 		var cur site
+		if *upto > 0 {
+			*deadline = 0
+			if *upto%*of != *shard {
+				fail("-upto %d is not a case of shard %d/%d", *upto, *shard, *of)
+			}
+		}
 		visit := func(c Case) {
 			idx++
 			if idx%*of != *shard {
+				return
+			}
+			if *upto > 0 && idx > *upto {
 				return
 			}
 			if capped && !out.Exhaustive {
@@ -915,7 +1193,13 @@ func main() {
 				out.Exhaustive = false
 				return
 			}
-			record(cur, runCaseRetry(cur, c, &out.Retried))
+			curIdx = idx
+			r := runCaseRetry(cur, c, &out.Retried)
+			record(cur, r)
+			if idx == *upto {
+				o := r.obs
+				out.Target = &o
+			}
 		}
 		ttls := make([]time.Duration, len(sites))
 		skips := make([]map[Case]bool, len(sites))
@@ -928,7 +1212,7 @@ func main() {
 			ttls[i] = ttl
 			out.Sites[s.name] = SiteInfo{TolNs: int64(s.tol), TTLNs: int64(ttl)}
 			cur = s
-			out.HistGaps[s.name] = enumerateHist(s.name, int64(s.tol), int64(ttl), ivSecs, false, visit)
+			out.HistGaps[s.name], out.HistFreshGaps[s.name] = enumerateHist(s.name, int64(s.tol), int64(ttl), ivSecs, s.conn, false, visit)
 			dbg("site " + s.name + " quick histories done, deliveries so far " + strconv.Itoa(out.Deliveries))
 			out.GridOffsets[s.name], out.GridDelays[s.name], skips[i] = enumerate(s.name, int64(s.tol), int64(ttl), visit)
 			dbg("site " + s.name + " edge grid done, deliveries so far " + strconv.Itoa(out.Deliveries))
@@ -937,7 +1221,7 @@ func main() {
 			capped = true
 			for i, s := range sites {
 				cur = s
-				enumerateHist(s.name, int64(s.tol), int64(ttls[i]), ivSecs, true, visit)
+				enumerateHist(s.name, int64(s.tol), int64(ttls[i]), ivSecs, s.conn, true, visit)
 				dbg("site " + s.name + " extra histories done, deliveries so far " + strconv.Itoa(out.Deliveries))
 			}
 			maxAll := int64(0)
@@ -971,6 +1255,11 @@ func main() {
 		out.Classes = append(out.Classes, *classes[k])
 	}
 	out.ClockReads = security.VerifClockReads()
+	for _, s := range sites {
+		if s.st != nil {
+			out.ConnReused[s.name], out.ConnFresh[s.name], out.ConnReconnects[s.name] = s.st.reused, s.st.fresh, s.st.reconnects
+		}
+	}
 	dbg("done")
 	_ = siteBindingsJSON
 	emit()
